@@ -365,6 +365,38 @@ func genC18(r *Run) {
 			break
 		}
 	}
+	// one connection, one destination address OBJECT whose IP (and port) the caller changes between writes, as a loop
+	// over a list of servers does: each frame is for the address the object held when it was written
+	{
+		sc := &scriptConn{}
+		sip := r.Bytes(4)
+		conn := nclient4.NewBroadcastUDPConn(sc, &net.UDPAddr{IP: ipArg(sip), Port: 68})
+		dst := &net.UDPAddr{IP: net.IP{10, 0, 0, 5}, Port: 67}
+		for i := 0; i < r.N(30, 300); i++ {
+			dip := r.Bytes(4)
+			if i%3 == 0 {
+				copy(dst.IP.To4(), dip) // changed in place
+			} else {
+				dst.IP = net.IP(dip)
+			}
+			if i%5 == 4 {
+				dst.Port = 1 + r.Rng.Intn(65535)
+			}
+			p := r.Bytes(1 + r.Rng.Intn(300))
+			before := len(sc.written)
+			_, err := conn.WriteTo(p, dst)
+			evals++
+			cs := fmt.Sprintf("write %d on one connection through one *net.UDPAddr now holding %s", i, dst)
+			if err != nil || len(sc.written) != before+1 {
+				r.Fail("write-through-reused-address", cs, fmt.Sprintf("error %v, %d frames written", err, len(sc.written)-before))
+				break
+			}
+			if bad := validateFrame(sc.written[before], p, sip, dip, 68, dst.Port); bad != "" {
+				r.Fail("write-through-reused-address", cs, "the frame is not the frame of this datagram to this address: "+bad)
+				break
+			}
+		}
+	}
 	// 16-octet / nil addresses (outside the claim; the model must agree)
 	r.Add(eRawWrite, []byte{1, 2, 3}, append(append(make([]byte, 10), 0xff, 0xff), 10, 0, 0, 1), []byte{0, 67}, nil, []byte{0, 68})
 	r.Add(eRawWrite, []byte{1, 2, 3}, r.Bytes(16), []byte{0, 67}, r.Bytes(4), []byte{0, 68})
